@@ -60,6 +60,7 @@ func runC06(p *eng.Prog, r *eng.Report, tier string) {
 	goroutineEndsItsTracking(c, "C06.22")
 	c18RegisteredBeforeQueued(c, "C06.24")
 	c15OnlyOwnRouteWithdrawn(c, "C06.25")
+	c15WakeUpOnlyOpenReaders(c, "C06.26")
 	attrGetNotUsed(c, "C06.23")
 	// C06.7 a hand-off record queued for the handler is taken back when the call fails
 	handoffWithdrawn(c, "C06.7", "muc", "(*Channel).JoinPresence", "muc.Channel.join")
